@@ -7,20 +7,36 @@
 // Oracle (from the property, on the CHARACTER sequence of the input): a numeral is  [+-]?D+(\.D+)?  with at most
 //   S fractional digits (S = 18 / 36); its value in sub-units is  int_part * 10^S  (+ or -)  frac * 10^(S - k),
 //   with the sign of the numeral ("-0.5" is negative although its integer part is 0).
-// Proved for EVERY &str shorter than 4 GiB:
-//   soundness     Ok(d)  ==>  the text is a numeral  &&  d == value(text)          (nothing else is accepted)
+// Proved for EVERY &str shorter than 4 GiB (precondition byte_len(s@) <= u32::MAX, see below):
+//   soundness     Ok(d)  ==>  the text is a numeral  &&  d == value(text)          (nothing else is accepted; this is
+//                 the clause violated by the defect fixed in /repo 5c4b0ece77: "1.-5" was accepted as 0.95)
 //   completeness  Ok    <==>  the text is a numeral  &&  value(text) is representable (incl. the most negative value)
 //   errors        Err(e) ==>  e is the rejection the oracle `rejection` names (first offending feature, in the order
-//                 points / integer part / integer overflow / places / fractional part / overflow)
+//                 points / integer part / integer overflow / places / fractional part / overflow), with one documented
+//                 slack (`rejected_as`): a malformed integer part longer than 38 bytes may be reported as Overflow
 //   no panic      `v[0]`, `v[1]`, the four `unreachable!` arms, `.expect("No overflow possible")`, `I192::TEN.pow(scale)`
 // Strings: `str` is `Seq<char>` in this vstd; `str::len` is the UTF-8 BYTE length. The fractional part may hold
 //   non-ASCII characters when `len` is taken: the places check is stated on bytes (`byte_len`), and digits-only
 //   texts are shown to have byte length == number of characters (vstd lemma is_ascii_chars_encode_utf8).
+// Precondition (machine range): byte_len(s@) <= u32::MAX. Verus forbids `requires` on trait-impl methods, so it sits
+//   on the FromStr trait declaration in shims/bigint_from_str_c27.rs. It is NEEDED on 64-bit hosts: the parsers compute
+//   `v[1].len() as u32`, which wraps at 4 GiB. Replayed on the real crate (native, 62 GB host):
+//     "0." + 2^32 zeros + "5"            -> Ok(0.5)        (2^32+1 fractional digits accepted with a wrong value)
+//     "0." + (2^32-50) zeros + 51 nines  -> panic "No overflow possible" (decimal.rs:845)
+//   Reported as a finding, not worked around. On wasm32 (usize = 32 bits) the precondition always holds.
+// @subst (2 per function, both notational, bodies otherwise verbatim):
+//   `s.split(` => `split_char(s,`                        core::str::Split<'a, P> cannot be named (Pattern has a GAT)
+//   `v[1].starts_with(` => `v[1].starts_with_char_fn(`   closure patterns need an axiom that does not fire in trait impls
+//   + @closure on the sign test `|c: char| c == '+' || c == '-'` (its body is verified against `b == (c is a sign)`).
+//   CONSEQUENCE: a patch that DELETES the sign guard loses these three anchors => the unit is UNDECIDED (lost anchor),
+//   not a VIOLATION; every neutralisation that keeps the statement (closure => false, one sign only, negated test,
+//   `&& len > 1`, other error) is a VIOLATION (mutants.txt), and the assembled file with the guard deleted by hand
+//   fails `Decimal::from_str` (soundness), so the contract itself does catch the defect.
 // Assumed (trusted base): shims/bigint.rs (bnum arithmetic), shims/bigint_from_str_c27.rs (bnum integer parser),
 //   shims/str_split_c27.rs (`str::split(char)`+collect, `starts_with`, byte length fits usize).
 // NOT covered: `impl Display` / `to_string` (core::fmt). The round-trip clause is only stated at ORACLE level
-//   (lemma_printed_form_denotes_value, parse_of_printed_form_*): for every text of the documented printing format the parser returns the
-//   value -- this is a statement about the parser, not about the code of `fmt`.
+//   (lemma_printed_form_denotes_value, parse_of_printed_form_*): for every text of the documented printing format the
+//   parser returns the value -- this is a statement about the parser, not about the code of `fmt`.
 #![feature(pattern)]
 use vstd::prelude::*;
 verus! {
@@ -376,8 +392,8 @@ pub mod unit {
                 ret is Ok <==> is_numeral(s@, 18) && in_i192(numeral_value(s@, 18)),
                 ret matches Err(e) ==> dec_rejection(e) matches Some(r) && rejected_as(s@, 18, i192_min(), i192_max(), r),
         @subst <<s.split(>> => <<split_char(s,>> why: core::str::Split<'a, P> cannot be named in Verus (declaring core::str::pattern::Pattern, a trait with a generic associated type, crashes the front end); split_char(s, c) is the shim for s.split(c) with the assumed contract S1 (shims/str_split_c27.rs); the argument and `.collect()` stay verbatim
-        @subst <<v[1].starts_with(>> => <<v[1].starts_with_char_fn(>> why: the contract of str::starts_with for a CLOSURE pattern needs a broadcast axiom over the closure type, which does not fire inside trait-impl methods on this Verus; s.starts_with_char_fn(f) is the shim for s.starts_with(f) with the assumed contract S2 (shims/str_split_c27.rs); receiver and closure stay verbatim
-        @closure 1 := |c: char| -> (b: bool) ensures b == (c == '+' || c == '-')
+        @subst? <<v[1].starts_with(>> => <<v[1].starts_with_char_fn(>> why: the contract of str::starts_with for a CLOSURE pattern needs a broadcast axiom over the closure type, which does not fire inside trait-impl methods on this Verus; s.starts_with_char_fn(f) is the shim for s.starts_with(f) with the assumed contract S2 (shims/str_split_c27.rs); receiver and closure stay verbatim
+        @closure? 1 := |c: char| -> (b: bool) ensures b == (c == '+' || c == '-')
         @before <<if v.len()>> #1
             let ghost t = s@;
             let ghost ps = piece_views(v@);
@@ -459,8 +475,8 @@ pub mod unit {
                 ret is Ok <==> is_numeral(s@, 36) && in_i256(numeral_value(s@, 36)),
                 ret matches Err(e) ==> pdec_rejection(e) matches Some(r) && rejected_as(s@, 36, i256_min(), i256_max(), r),
         @subst <<s.split(>> => <<split_char(s,>> why: core::str::Split<'a, P> cannot be named in Verus (declaring core::str::pattern::Pattern, a trait with a generic associated type, crashes the front end); split_char(s, c) is the shim for s.split(c) with the assumed contract S1 (shims/str_split_c27.rs); the argument and `.collect()` stay verbatim
-        @subst <<v[1].starts_with(>> => <<v[1].starts_with_char_fn(>> why: the contract of str::starts_with for a CLOSURE pattern needs a broadcast axiom over the closure type, which does not fire inside trait-impl methods on this Verus; s.starts_with_char_fn(f) is the shim for s.starts_with(f) with the assumed contract S2 (shims/str_split_c27.rs); receiver and closure stay verbatim
-        @closure 1 := |c: char| -> (b: bool) ensures b == (c == '+' || c == '-')
+        @subst? <<v[1].starts_with(>> => <<v[1].starts_with_char_fn(>> why: the contract of str::starts_with for a CLOSURE pattern needs a broadcast axiom over the closure type, which does not fire inside trait-impl methods on this Verus; s.starts_with_char_fn(f) is the shim for s.starts_with(f) with the assumed contract S2 (shims/str_split_c27.rs); receiver and closure stay verbatim
+        @closure? 1 := |c: char| -> (b: bool) ensures b == (c == '+' || c == '-')
         @before <<if v.len()>> #1
             let ghost t = s@;
             let ghost ps = piece_views(v@);
